@@ -70,12 +70,33 @@ def gen_case(rng, tier, index):
         if rng.random() < 0.3:
             # the user touches a source workspace: Bob re-runs the (deterministic) checkout
             # script because the workspace changed and must record what is there afterwards
-            ops.append({"tamper": rng.choice(["overwrite-generated", "add-file", "both"]), "ws": w, "pick": rng.randrange(100)})
+            ops.append({"tamper": rng.choice(["overwrite-generated", "add-file", "both", "remove-added", "remove-added"]),
+                        "ws": w, "pick": rng.randrange(100)})
         ops.append({"ws": w, "upload": rng.random() < 0.5,
                     "download": rng.choice(["no", "yes", "deps", "forced-fallback"]),
                     "jobs": rng.choice([1, 2, 4]), "seed": rng.getrandbits(32),
                     "shared": rng.random() < 0.7})
     return {"model": model, "ops": ops, "meta": {"VERIFKEY": "v%d" % rng.randrange(100)}}
+
+def directed_cases(tier):
+    """A shared package whose Build-Id changes at unchanged Variant-Id (user adds a file to its source
+    workspace) and then returns to a Build-Id that is already installed in the shared location."""
+    import random
+    rng = random.Random(1414)
+    out = []
+    for k in range(2):
+        lib = projgen._leaf(rng); lib["src"] = "script"; lib["shared"] = True
+        mid = projgen._leaf(rng); mid["depends"] = [{"name": "lib", "use": ["result", "deps"]}]
+        root = projgen._leaf(rng)
+        root["depends"] = [{"name": "mid", "use": ["result", "deps"]}] + ([{"name": "lib", "use": ["result", "deps"]}] if k else [])
+        model = {"recipes": {"root": root, "mid": mid, "lib": lib}, "classes": {}, "default_env": {}, "sources": {},
+                 "order": ["root", "mid", "lib"], "features": ["directed-shared-buildid-returns"]}
+        b = lambda w: {"ws": w, "upload": False, "download": "no", "jobs": 1, "seed": rng.getrandbits(32), "shared": True}
+        ops = [b("A"), {"tamper": "add-file", "ws": "A", "pick": 0}, b("A"), {"tamper": "remove-added", "ws": "A", "pick": 0}, b("A")]
+        if k:
+            ops += [b("B"), {"tamper": "add-file", "ws": "B", "pick": 0}, b("B")]
+        out.append({"model": model, "ops": ops, "meta": {"VERIFKEY": "d%d" % k}, "directed": "shared package returns to an installed Build-Id"})
+    return out
 
 # -- independent re-implementation of the artifact-id digest (documented in audit-trail.rst / audit.py)
 
@@ -374,6 +395,11 @@ def run_case(case):
                         common.write_file(os.path.join(d, "src-out.txt"), "edited by the user %d\n" % n)
                     if op["tamper"] in ("add-file", "both"):
                         common.write_file(os.path.join(d, "user-note-%d.txt" % n), "note %d\n" % n)
+                    if op["tamper"] == "remove-added":
+                        # the user takes the additions back: the workspace has the content of an earlier build again
+                        for f in sorted(os.listdir(d)):
+                            if f.startswith("user-note-"):
+                                os.unlink(os.path.join(d, f))
                     stats.inc("source_workspace_tampered")
                 continue
             mat[w] = projgen.materialise(model, proj, clock, mat[w])
